@@ -119,12 +119,15 @@ impl Mon {
             let n = c.data.len();
             // every byte offset of every journal layout is swept by C03; here the splits of the
             // writes as they actually occurred are sampled
+            // (drawn from a generator keyed by the call index: the replay of one narrowed fault
+            // point must see the same splits as the sweep did)
+            let mut prng = self.point_rng(k);
             let mut splits: Vec<usize> = if is_journal(c.rel) {
-                let mut v: Vec<usize> = (0..3).map(|_| 1 + self.rng.usize(n - 1)).collect();
+                let mut v: Vec<usize> = (0..3).map(|_| 1 + prng.usize(n - 1)).collect();
                 v.extend([1, n - 1, n / 2]);
                 v
             } else {
-                vec![1 + self.rng.usize(n - 1)]
+                vec![1 + prng.usize(n - 1)]
             };
             splits.sort_unstable();
             splits.dedup();
@@ -170,6 +173,14 @@ impl Mon {
         }
     }
 
+    /// Generator for the random choices at fault point `k` (independent of how many other points
+    /// were taken before)
+    fn point_rng(&self, k: u32) -> crate::rng::Rng {
+        let mut r = self.rng.clone();
+        let base = r.next();
+        crate::rng::Rng::new(crate::rng::mix(base ^ (u64::from(k) << 20) ^ 0x706f_696e_74))
+    }
+
     fn snapshot_power(&mut self, c: &Call, k: u32, variant: u8) {
         self.snapshot_power_desc(format!("power loss before {} {}", c.kind.name(), norm(c.rel)), k, variant);
     }
@@ -180,7 +191,7 @@ impl Mon {
         let files = fsutil::list_files(&live);
         let images = self.images.clone();
         let mut survivors = 0u64;
-        let mut rng = self.rng.clone();
+        let mut rng = self.point_rng(k);
         let res = interpose::bypass(|| -> std::io::Result<()> {
             std::fs::create_dir_all(&dir)?;
             for rel in &files {
@@ -226,7 +237,6 @@ impl Mon {
             }
             Ok(())
         });
-        self.rng = rng;
         if res.is_err() {
             self.stats.inc("snapshot_copy_failed");
             fsutil::remove_tree(&dir);
